@@ -526,7 +526,7 @@ class TdmsChannel(object):
     def __iter__(self):
         """ Returns an iterator over the values in this channel
         """
-        if self._raw_data is not None:
+        if self._raw_data is not None or self._length == 0:
             return iter(self.data)
         else:
             return self._read_data_values()
@@ -863,6 +863,9 @@ class TdmsChannel(object):
                 num_values = min(length, len(self) - offset)
             num_values = max(0, num_values)
             channel_data = get_data_receiver(self, num_values, self._raw_timestamps, self._memmap_dir)
+        if channel_data is None:
+            # Channel has no data type so there is no data to read
+            return None
 
         with Timer(log, "Read data for channel"):
             # Now actually read all the data
